@@ -4,6 +4,7 @@ afterwards) and records the outcome in seeded/<id>/meta.json.  usage: sweep_seed
 import json, os, re, subprocess, sys, time
 
 ROOT = os.path.dirname(os.path.dirname(os.path.abspath(__file__)))
+REPO = os.environ.get("SWEEP_REPO", "/repo")     # a copy of /repo at the same commit may be swept instead (vp run --with-repo)
 
 
 def sh(cmd, **kw):
@@ -13,22 +14,22 @@ def sh(cmd, **kw):
 def main():
     ids = sys.argv[1:] or sorted(os.listdir(os.path.join(ROOT, "seeded")))
     ids = [i for i in ids if os.path.isdir(os.path.join(ROOT, "seeded", i))]
-    if sh("git -C /repo diff --quiet").returncode != 0:
-        sys.exit("/repo is dirty")
+    if sh("git -C %s diff --quiet" % REPO).returncode != 0:
+        sys.exit(REPO + " is dirty")
     for mid in ids:
         d = os.path.join(ROOT, "seeded", mid)
         pid = mid.split("-")[0]
         meta_p = os.path.join(d, "meta.json")
         meta = json.load(open(meta_p)) if os.path.exists(meta_p) else {}
-        ap = sh("git -C /repo apply %s/patch.diff" % d)
+        ap = sh("git -C %s apply %s/patch.diff" % (REPO, d))
         if ap.returncode != 0:
             meta["sweep"] = {"applies": False, "output": ap.stdout[-300:]}
             json.dump(meta, open(meta_p, "w"), indent=1)
             print(mid, "patch does not apply")
             continue
         t = time.time()
-        r = sh("./check %s --tier quick" % pid, cwd=ROOT)
-        sh("git -C /repo checkout -- .")
+        r = sh("./check %s --tier quick" % pid, cwd=ROOT, env=dict(os.environ, VERIF_EVIDENCE_TO_WORK="1"))
+        sh("git -C %s checkout -- ." % REPO)
         viol = [l for l in r.stdout.splitlines() if l.startswith("VIOLATION")]
         first = next((l.strip() for l in r.stdout.splitlines() if l.strip().startswith("unmatched record")), "")
         step = ""
